@@ -12,6 +12,7 @@
 package main
 
 import (
+	"encoding/hex"
 	"encoding/json"
 	"flag"
 	"fmt"
@@ -198,13 +199,72 @@ func (lm *lockMon) cycle() []string {
 type opIn struct {
 	Cmd [][]byte
 	Key string
+	// Unknown: the reply is not part of the history (an operation still pending at the cut of a prefix); it may take
+	// effect at any point after its call, with whatever reply
+	Unknown bool
 }
 
 type witness struct {
 	Kind    string     `json:"kind"`
 	Detail  string     `json:"detail"`
 	History [][]string `json:"history,omitempty"`
-	Sig     string     `json:"sig"`
+	// Full is the whole recorded history of the offending key in a re-loadable form:
+	// client, call ns, return ns, hex(RESP reply), then the Go-quoted arguments (conc -explain <file> re-judges it)
+	Full [][]string `json:"full,omitempty"`
+	Sig  string     `json:"sig"`
+}
+
+func fullHistory(ops []porcupine.Operation) [][]string {
+	var out [][]string
+	for _, op := range ops {
+		in := op.Input.(opIn)
+		row := []string{strconv.Itoa(op.ClientId), strconv.FormatInt(op.Call, 10), strconv.FormatInt(op.Return, 10), hex.EncodeToString(op.Output.(respc.Value).Encode()), in.Key}
+		out = append(out, append(row, seqrun.QuoteFull(in.Cmd)...))
+	}
+	return out
+}
+
+// explain re-judges a stored witness.
+func explain(path string) {
+	b, err := os.ReadFile(path)
+	if err != nil {
+		fmt.Println(err)
+		return
+	}
+	var w witness
+	if json.Unmarshal(b, &w) != nil || len(w.Full) == 0 {
+		fmt.Println("no full history in", path)
+		return
+	}
+	var ops []porcupine.Operation
+	for _, row := range w.Full {
+		ci, _ := strconv.Atoi(row[0])
+		call, _ := strconv.ParseInt(row[1], 10, 64)
+		ret, _ := strconv.ParseInt(row[2], 10, 64)
+		raw, _ := hex.DecodeString(row[3])
+		vals, _, _ := respc.DecodeAll(raw)
+		cmd, err := seqrun.Unquote(row[5:])
+		if err != nil || len(vals) != 1 {
+			fmt.Println("unreadable row", row)
+			return
+		}
+		ops = append(ops, porcupine.Operation{ClientId: ci, Input: opIn{Cmd: cmd, Key: row[4]}, Call: call, Output: vals[0], Return: ret})
+	}
+	joint := false
+	keys := map[string]bool{}
+	for _, op := range ops {
+		keys[op.Input.(opIn).Key] = true
+	}
+	joint = len(keys) > 1
+	res, _ := porcupine.CheckOperationsVerbose(pModel(false), append([]porcupine.Operation{}, ops...), 5*time.Minute)
+	fmt.Printf("%d operations, joint=%v: porcupine says %v\n", len(ops), joint, res)
+	if res == porcupine.Illegal {
+		short := shortestIllegalPrefix(ops)
+		fmt.Printf("shortest illegal prefix in time: %d operations\n", len(short))
+		for _, h := range historyText(short) {
+			fmt.Println("  ", strings.Join(h, " "))
+		}
+	}
 }
 
 type workerOut struct {
@@ -556,6 +616,9 @@ func pModel(partition bool) porcupine.Model {
 		Step: func(state, input, output interface{}) (bool, interface{}) {
 			st := state.(model.PState)
 			in := input.(opIn)
+			if in.Unknown {
+				return true, st.ApplyUnknown(in.Cmd)
+			}
 			ok, next, _ := st.Apply(in.Cmd, output.(respc.Value))
 			return ok, next
 		},
@@ -587,26 +650,58 @@ func pModel(partition bool) porcupine.Model {
 	return m
 }
 
-// shortestIllegalPrefix is a display aid: the shortest prefix (by call time) of an illegal history that is itself illegal.
+// shortestIllegalPrefix returns the shortest prefix in time of an illegal history that is itself illegal: the operations
+// that had returned by the cut with their replies, plus the operations pending at the cut with their replies withheld
+// (they may take effect at any later point). Such a prefix is a witness in its own right, and its last completed
+// operation carries the first reply that cannot be explained. Only for histories of deterministic commands.
 func shortestIllegalPrefix(part []porcupine.Operation) []porcupine.Operation {
 	ops := append([]porcupine.Operation{}, part...)
-	sort.Slice(ops, func(i, j int) bool { return ops[i].Call < ops[j].Call })
+	for _, op := range ops {
+		switch strings.ToUpper(string(op.Input.(opIn).Cmd[0])) {
+		case "SPOP", "SRANDMEMBER", "HRANDFIELD":
+			return ops
+		}
+	}
+	sort.Slice(ops, func(i, j int) bool { return ops[i].Return < ops[j].Return })
+	var maxT int64
+	for _, op := range ops {
+		if op.Return > maxT {
+			maxT = op.Return
+		}
+	}
+	prefix := func(n int) []porcupine.Operation { // the first n operations by return time are complete
+		cut := ops[n-1].Return
+		var out []porcupine.Operation
+		out = append(out, ops[:n]...)
+		for _, op := range ops[n:] {
+			if op.Call < cut {
+				in := op.Input.(opIn)
+				in.Unknown = true
+				out = append(out, porcupine.Operation{ClientId: op.ClientId, Input: in, Call: op.Call, Output: respc.Value{}, Return: maxT + 1})
+			}
+		}
+		return out
+	}
 	lo, hi := 1, len(ops)
 	for lo < hi {
 		mid := (lo + hi) / 2
-		if porcupine.CheckOperations(pModel(false), append([]porcupine.Operation{}, ops[:mid]...)) {
+		if porcupine.CheckOperations(pModel(false), prefix(mid)) {
 			lo = mid + 1
 		} else {
 			hi = mid
 		}
 	}
-	return ops[:lo]
+	return prefix(lo)
 }
 
 func historyText(ops []porcupine.Operation) [][]string {
 	sort.Slice(ops, func(i, j int) bool { return ops[i].Call < ops[j].Call })
 	var out [][]string
 	for _, op := range ops {
+		if op.Input.(opIn).Unknown {
+			out = append(out, []string{fmt.Sprintf("c%d", op.ClientId), fmt.Sprintf("[%d,pending at the cut]", op.Call), cmdStr(op.Input.(opIn).Cmd), "(reply withheld)"})
+			continue
+		}
 		out = append(out, []string{fmt.Sprintf("c%d", op.ClientId), fmt.Sprintf("[%d,%d]", op.Call, op.Return), cmdStr(op.Input.(opIn).Cmd), op.Output.(respc.Value).String()})
 	}
 	return out
@@ -824,8 +919,8 @@ func (rn *runner) historyC05(r *rand.Rand, shards int) {
 			}
 			sort.Strings(ns)
 			short := shortestIllegalPrefix(part)
-			rn.report(witness{Kind: "not-linearizable", Detail: fmt.Sprintf("key %q (%d ops, %d clients, ShardNum %d, class %s): no sequential order respecting real time explains the replies; shortest illegal prefix by call time has %d ops, its last one is the first reply that cannot be explained", k, len(part), nClients, shards, class, len(short)),
-				History: historyText(short), Sig: "not-linearizable|" + strings.Join(ns, ",")})
+			rn.report(witness{Kind: "not-linearizable", Detail: fmt.Sprintf("key %q (%d ops, %d clients, ShardNum %d, class %s): no sequential order respecting real time explains the replies; shortest illegal prefix in time has %d ops (pending ones with their replies withheld); the last completed one carries the first reply that cannot be explained", k, len(part), nClients, shards, class, len(short)),
+				History: historyText(short), Full: fullHistory(part), Sig: "not-linearizable|" + strings.Join(ns, ",")})
 			break
 		}
 	}
@@ -1525,7 +1620,8 @@ func main() {
 		os.Exit(common.ExitInconclusive)
 	}
 	if o.Replay != "" {
-		fmt.Println("concurrency witnesses are schedule dependent; re-run the check with the same VERIF_SEED. Witness:", o.Replay)
+		fmt.Println("concurrency witnesses are schedule dependent; re-run the check with the same VERIF_SEED. The stored history is re-judged:", o.Replay)
+		explain(o.Replay)
 		return
 	}
 	nb := o.Pick(16, 64)
